@@ -192,7 +192,7 @@ def run(ctx):
     # ---- direct law violations found by the harness (the search; needs no model)
     for l in laws:
         idx = l["idx"] or []
-        classes = "/".join(pool[i]["v"]["t"] for i in idx[:3]) if l["law"] not in ("sorted_order", "sorted_stable", "sorted_perm", "sorted_error", "minmax_extremal", "minmax_first", "minmax_error") else "seq"
+        classes = "/".join(pool[i]["v"]["t"] for i in idx[:3]) if l["law"] not in ("sorted_order", "sorted_stable", "sorted_perm", "sorted_error", "minmax_extremal", "minmax_first", "minmax_error", "dict_history") else "seq"
         key = "law:%s:%s" % (l["law"], classes)
         ctx.finding(key, "%s violated: %s on %s" % (l["law"], l["detail"], [pool[i]["v"] for i in idx[:3]]),
                     {"law": l["law"], "detail": l["detail"], "values": [pool[i]["v"] for i in idx], "indices": idx})
@@ -310,7 +310,7 @@ def run(ctx):
     cov = {
         "evaluations": n * n * 6 + st["triples_checked"] + len(sorts) + len(minmaxes) + len(members) * n,
         "distinct_nontrivial": len(set(terms)),
-        "rule": "pool of %d values (bools, ints/floats of equal magnitude across representations, +-0, NaN, +-inf, %d magnitude bands between 2^53 and 2^1023 (integral float with a random odd mantissa, the equal int, int+-1, float+-1ulp), strings/bytes below and above 12 bytes, tuples/lists nested to depth 9..12 around the limit 10, ranges, structs, functions, builtins, times, durations, dicts, sets): ALL ordered pairs x 6 operators, ALL triples of the base pool and every triple containing two values of one band, hashes, membership in {x:1} and set([x]) and one dict of everything are checked against the algebraic laws in Go; %d random sequences under sorted/min/max with/without key and reverse; distinct_nontrivial = distinct cases evaluated inside Coq against C11.Model (correspondence) and C11.Spec (oracle)" % (n, len(groups), len(sorts)),
+        "rule": "pool of %d values (bools, ints/floats of equal magnitude across representations, +-0, NaN, +-inf, %d magnitude bands between 2^53 and 2^1023 (integral float with a random odd mantissa, the equal int, int+-1, float+-1ulp), strings/bytes below and above 12 bytes, tuples/lists nested to depth 9..12 around the limit 10, ranges, structs, functions, builtins, times, durations, dicts, sets): ALL ordered pairs x 6 operators, ALL triples of the base pool and every triple containing two values of one band, hashes, membership in {x:1} and set([x]) and one dict of everything are checked against the algebraic laws in Go; ints produced by every Int operator / conversion from big operands with small results next to the directly built equal values; random dict/set insert/update/delete histories over colliding keys in int/float/tuple representations against a reference keyed by value; %d random sequences under sorted/min/max with/without key and reverse; distinct_nontrivial = distinct cases evaluated inside Coq against C11.Model (correspondence) and C11.Spec (oracle)" % (n, len(groups), len(sorts)),
         "samples": refs[:2] + refs[len(refs) // 2: len(refs) // 2 + 2] + refs[-2:],
         "distribution": dist,
         "go_law_violations": st["violations"], "triples_checked_in_go": st["triples_checked"],
